@@ -211,6 +211,14 @@ func (m *c05Mon) Before(w *world.World, op world.Op) interface{} {
 }
 
 func (m *c05Mon) After(w *world.World, op world.Op, res world.Res, pre interface{}) []explore.Finding {
+	if op.Kind == world.OpLoad && res.Err == nil && res.Panic == nil {
+		// loading a root kept earlier: still the identity on what was persisted then
+		if got := w.ReadContents(w.Trees[op.A]); !got.Equal(w.RootC[op.B]) || w.Trees[op.A].Size() != w.Roots[op.B].Size || w.Trees[op.A].Height() != w.Roots[op.B].Height {
+			return []explore.Finding{{Sig: "C05|load-of-kept-root-differs|cache=" + w.Cfg.Cache + "|" + report.Norm(got.Bad), What: "loading a root that was returned by MakeRoot earlier yields a tree that differs from what was persisted",
+				Detail: fmt.Sprintf("persisted %v, loaded %v", w.RootC[op.B], got), Block: true}}
+		}
+		return nil
+	}
 	if op.Kind != world.OpReload && op.Kind != world.OpReloadJSON {
 		return nil
 	}
